@@ -382,14 +382,14 @@ def _fmt_target(ctx, v):
     return v, None
 
 
-@model(r'^std::fmt::Formatter::write_str$|^<std::fmt::Formatter<\'_> as std::fmt::Write>::write_str$|^core::fmt::Formatter::write_str$')
+@model(r'^std::fmt::Formatter::write_str$|^<std::fmt::Formatter<\'_> as (std::fmt::)?Write>::write_str$|^core::fmt::Formatter::write_str$')
 def m_fmt_write_str(ctx, args, callee):
     f, _ = _fmt_target(ctx, args[0])
     f.out = concat_any(ctx, f.out, as_str(ctx, args[1]))
     return ok(UNIT)
 
 
-@model(r'^<std::fmt::Formatter<\'_> as std::fmt::Write>::write_char$|^std::fmt::Formatter::write_char$')
+@model(r'^<std::fmt::Formatter<\'_> as (std::fmt::)?Write>::write_char$|^std::fmt::Formatter::write_char$')
 def m_fmt_write_char(ctx, args, callee):
     f, _ = _fmt_target(ctx, args[0])
     c = conc(args[1])
@@ -399,7 +399,7 @@ def m_fmt_write_char(ctx, args, callee):
     return ok(UNIT)
 
 
-@model(r'^std::fmt::Formatter::write_fmt$|^<std::fmt::Formatter<\'_> as std::fmt::Write>::write_fmt$|^core::fmt::Formatter::write_fmt$')
+@model(r'^std::fmt::Formatter::write_fmt$|^<std::fmt::Formatter<\'_> as (std::fmt::)?Write>::write_fmt$|^core::fmt::Formatter::write_fmt$')
 def m_fmt_write_fmt(ctx, args, callee):
     f, _ = _fmt_target(ctx, args[0])
     f.out = concat_any(ctx, f.out, render(ctx, args[1]))
@@ -413,7 +413,7 @@ def m_str_display(ctx, args, callee):
     return ok(UNIT)
 
 
-@model(r'^<std::string::String as std::fmt::Write>::write_str$|^<std::string::String as std::fmt::Write>::write_fmt$')
+@model(r'^<std::string::String as (std::fmt::)?Write>::write_str$|^<std::string::String as (std::fmt::)?Write>::write_fmt$')
 def m_string_write(ctx, args, callee):
     cur = as_str(ctx, args[0])
     add = as_str(ctx, args[1]) if callee.endswith('write_str') else render(ctx, args[1])
